@@ -114,9 +114,17 @@ def run_case(desc, ctx):
 
         lo_n = 8 if kind == "msm" else 5
         N = int(rng.integers(lo_n, 121 if kind != "likelihood" else 60))
+        long_default = kind == "gsl" and rep == 0 and desc["i"] % 4 == 0
+        if long_default:
+            N = int(rng.integers(290, 340))        # the default number of symbols and word lengths grows with the length: (T-1)/2 each
         D = int(rng.integers(1, 5))
         E = int(rng.integers(1, 5))
         d = G.gen_loss_desc(rng, kind, D, N)
+        if long_default:
+            d.update(nb_values=None, nb_word_lengths=None, filters=None)
+            D = 1
+            d["weights"] = None
+            c["gsl_default_options_on_long_series"] = c.get("gsl_default_options_on_long_series", 0) + 1
         int_data = rng.random() < 0.15
         real, sim, kinds = G.gen_data(rng, N, D, E, d["filters"], int_data=int_data)
         if kind in ("msm", "gsl", "likelihood") and rng.random() < 0.3 and N >= lo_n + 4:
@@ -164,7 +172,15 @@ def run_case(desc, ctx):
                 loss = G.build_loss(d)
                 got = float(loss.compute_loss(sim_b, real_b))
         except Exception as e:  # noqa: BLE001
-            out["violations"].append({"msg": f"{kind}: compute_loss raised {type(e).__name__}: {e}", "witness": wit})
+            v = {"msg": f"{kind}: compute_loss raised {type(e).__name__}: {e}", "witness": wit}
+            if kind == "gsl" and isinstance(e, OverflowError):
+                # the recorded finding: with long words the packed word / the entropy base b**l leave the float range
+                T_ = real.shape[0]
+                b_ = d["nb_values"] if d.get("nb_values") is not None else int((T_ - 1) / 2.0)
+                L_ = d["nb_word_lengths"] if d.get("nb_word_lengths") is not None else int((T_ - 1) / 2.0)
+                if (b_ >= 2 and L_ * math.log10(b_) > 308.0) or L_ >= 309:
+                    v["mechanism"] = "gsl-long-words-overflow"
+            out["violations"].append(v)
             continue
         c[kind] = c.get(kind, 0) + 1
         out["evals"] += 1
